@@ -41,7 +41,7 @@ def corpus():
         '{"version":3,"sources":["a"],"names":["é"],"mappings":"AAAAA,%sAAA"}' % n62,
         '{"version":3,"sources":["a"],"names":[],"mappings":"' + ",".join(["CAAC"] * 17) + '","rangeMappings":"AAQ"}',
     ]
-    return ["bytes.all " + hx(d) for d in docs] + ["bytes.all -", "bytes.all " + hx(")]}'\r{}"), "bytes.all " + hx("//# sourceMappingURL=data:application/json;base64,e30=")]
+    return ["bytes.all " + hx(d) for d in docs] + ["bytes.all -", "bytes.all " + hx("function a(){alert(1)}\r"), "bytes.all " + hx("a\r\n"), "bytes.all " + hx("\r"), "bytes.all " + hx(")]}'\r{}"), "bytes.all " + hx("//# sourceMappingURL=data:application/json;base64,e30=")]
 
 
 def rand_value(rng, depth=0):
@@ -144,8 +144,13 @@ def generate(tier, rng, hist):
     N = 1500 if tier == "quick" else 120000
     fx = fixtures()
     for _ in range(N):
-        r = rng.below(10)
-        if r < 1:
+        r = rng.below(11)
+        if r == 10:
+            # text-like input: every entry point that takes a source text sees terminators anywhere
+            pieces = ["function a(){alert(1)}", "var é=1;", "//# sourceMappingURL=x.map", "//@ sourceMappingURL=data:application/json;base64,e30=", "𝒳", "", " a "]
+            b = "".join(rng.choice(pieces) + rng.choice(["\n", "\r", "\r\n", "", "\n\r"]) for _ in range(rng.range(1, 4))).encode()
+            bump(hist, "text_like")
+        elif r < 1:
             b = bytes(rng.below(256) for _ in range(rng.small(80)))
             bump(hist, "arbitrary_bytes")
         elif r < 6:
